@@ -40,6 +40,7 @@ import GM.Props.Consts.Parser
 import GM.Props.ConvertNP
 import GM.Props.Wf0
 import GM.Props.ConvertX
+import GM.Props.C16E2E
 
 namespace GM.Props.C01
 open GM
@@ -299,5 +300,35 @@ theorem convert_no_value_panic_of_raw_segments : type_of% @GM.Props.ConvertE2E.c
 /-- (re-export of `GM.Props.ConvertE2E.convert_renderer_side_total_partial`) `convert_renderer_side_total_partial`: given (b), `convertCore` can only fail in the parse phases — with a
     `blocks …`, `linesNotWF0` or `inlines …` outcome; the renderer side (`value`, `render`) is total. -/
 theorem convert_renderer_side_total_partial : type_of% @GM.Props.ConvertE2E.convert_renderer_side_total_partial := @GM.Props.ConvertE2E.convert_renderer_side_total_partial
+
+/-- (re-export of `GM.Props.Wf0.inline_lines_wf0`) **`InlineLinesWF0`, every source** (the premise `GM.Props.Blocks.InlineLinesWF0 src` of the end-to-end theorems is
+    a theorem): when the block phase returns, the lines of every inline-bearing block of the store (not raw, with at
+    least one line) are `WF0` — non-empty segments inside the source that increase, padding 0, no ForceNewline. -/
+theorem inline_lines_wf0 : type_of% @GM.Props.Wf0.inline_lines_wf0 := @GM.Props.Wf0.inline_lines_wf0
+
+/-- (re-export of `GM.Props.Wf0.nonraw_lines_padding_zero`) **padding 0 at the end, every source.** When the block phase returns, every line segment of every block of the
+    store that is not raw has padding 0: each Paragraph / setext heading was handed to its parser's `Close`
+    (paragraphParser.Close trims the lines and resets the padding) before the run ended, and the lines that setext /
+    list `Close` copy into Headings / TextBlocks are copied from closed paragraphs. -/
+theorem nonraw_lines_padding_zero : type_of% @GM.Props.Wf0.nonraw_lines_padding_zero := @GM.Props.Wf0.nonraw_lines_padding_zero
+
+/-- (re-export of `GM.Props.Wf0.open_stack_empty_at_end`) **the open-block stack is empty when the block phase returns**, every source: every block that was pushed has
+    been popped by `closeBlocks` (which hands it to `Close`: see `close_blocks_discipline`). -/
+theorem open_stack_empty_at_end : type_of% @GM.Props.Wf0.open_stack_empty_at_end := @GM.Props.Wf0.open_stack_empty_at_end
+
+/-- (re-export of `GM.Props.C16E2E.convertf_never_loops_of`) **No fuel exhaustion, relative to the two phase loops**: when the block phase with the footnote block parser and the
+    inline loop over the table with the footnote parser never exhaust their fuel, `convertF true` never does (the
+    transformer is a total function; the renderer has no fuel). -/
+theorem convertf_never_loops_of : type_of% @GM.Props.C16E2E.convertf_never_loops_of := @GM.Props.C16E2E.convertf_never_loops_of
+
+/-- (re-export of `GM.Props.C16E2E.convertf_never_loops_partial`) with the extension off: never, unconditionally (it is `convertCore`) -/
+theorem convertf_never_loops_partial : type_of% @GM.Props.C16E2E.convertf_never_loops_partial := @GM.Props.C16E2E.convertf_never_loops_partial
+
+/-- (re-export of `GM.Props.C16E2E.convertf_never_loops_conservative`) … hence `convertF` never exhausts fuel on a source without `[^` -/
+theorem convertf_never_loops_conservative : type_of% @GM.Props.C16E2E.convertf_never_loops_conservative := @GM.Props.C16E2E.convertf_never_loops_conservative
+
+/-- (re-export of `GM.Props.C16E2E.convertf_inline_phase_without_list_total`) C01 for that inline phase: TOTAL — children, no Go panic, no fuel exhaustion, no monitor (GM.Proof.InlinesLink.parseBlock_total
+    carried over by the equality above) -/
+theorem convertf_inline_phase_without_list_total : type_of% @GM.Props.C16E2E.convertf_inline_phase_without_list_total := @GM.Props.C16E2E.convertf_inline_phase_without_list_total
 
 end GM.Props.C01
